@@ -15,6 +15,11 @@ Theorem C07_superblock_no_panic : forall file, dec_superblock file <> Panic.
 Proof. exact dec_superblock_no_panic. Qed.
 Print Assumptions C07_superblock_no_panic.
 
+(* both variants of the C06 repair switch of this parser (false = the code before the repair, true = dec_superblock) *)
+Theorem C07_superblock_no_panic_both_variants : forall rep file, dec_superblock_gen rep file <> Panic.
+Proof. exact dec_superblock_gen_np. Qed.
+Print Assumptions C07_superblock_no_panic_both_variants.
+
 Theorem C07_dataspace_no_panic : forall data, dec_dataspace data <> Panic.
 Proof. exact dec_dataspace_no_panic. Qed.
 Print Assumptions C07_dataspace_no_panic.
@@ -35,9 +40,19 @@ Theorem C07_pipeline_no_panic : forall data, dec_pipeline data <> Panic.
 Proof. exact dec_pipeline_no_panic. Qed.
 Print Assumptions C07_pipeline_no_panic.
 
+(* both variants of the C06 repair switch of this parser (false = the code before the repair, true = dec_pipeline) *)
+Theorem C07_pipeline_no_panic_both_variants : forall rep data, dec_pipeline_gen rep data <> Panic.
+Proof. exact dec_pipeline_gen_np. Qed.
+Print Assumptions C07_pipeline_no_panic_both_variants.
+
 Theorem C07_attribute_no_panic : forall be data, dec_attribute be data <> Panic.
 Proof. exact dec_attribute_no_panic. Qed.
 Print Assumptions C07_attribute_no_panic.
+
+(* both variants of the C06 repair switch of this parser (false = the code before the repair, true = dec_attribute) *)
+Theorem C07_attribute_no_panic_both_variants : forall rep be data, dec_attribute_gen rep be data <> Panic.
+Proof. exact dec_attribute_gen_np. Qed.
+Print Assumptions C07_attribute_no_panic_both_variants.
 
 Theorem C07_link_no_panic : forall offsize data, dec_link offsize data <> Panic.
 Proof. exact dec_link_no_panic. Qed.
